@@ -341,6 +341,23 @@ def steps_spec(cx):
 
     cx.spec["length_predicates_from_own_option"] = length_predicates_from_own_option
 
+    def criterion_on_both_mates(steps, *pred_classes):
+        """A paired filter on one of these criteria tests both mates with the same criterion (neither side is left out)."""
+        pred_classes = [_py(p) for p in pred_classes]
+        cs = []
+        for pc in pred_classes:
+            for g, it in filters_of_any(steps, pc):
+                for ccond, cn in possible_classes(it):
+                    if cn != "PairedEndFilter":
+                        continue
+                    for key in ("a0", "a1"):
+                        for acond, o_ in alts(it.fields.get(key)):
+                            ok = z3.BoolVal(o_ is not None and o_[0] == pc)
+                            cs.append(z3.Implies(z3.And(g, ccond, acond), ok))
+        return z3.And(*cs) if cs else z3.BoolVal(True)
+
+    cx.spec["criterion_on_both_mates"] = criterion_on_both_mates
+
     def veq_str(a, b):
         from pyvc.engine import str_eq
         if a is None or b is None:
@@ -395,6 +412,8 @@ def builder_steps(c):
         otherwise_the_requested_pair_filter_mode_applies=f"implies(paired and len(adapters) > 0 and len(adapters2) > 0, untrimmed_pair_mode_is({S}, pair_filter_mode))",
         every_other_pair_filter_uses_the_requested_mode=f"implies(paired, paired_filters_use_mode({S}, pair_filter_mode, 'TooShort', 'TooLong', 'TooManyN', "
                                                         f"'TooManyExpectedErrors', 'TooHighAverageErrorRate', 'CasavaFiltered', 'IsTrimmed'))",
+        n_error_and_casava_criteria_are_tested_on_both_mates=f"implies(paired, criterion_on_both_mates({S}, 'TooManyN', 'TooManyExpectedErrors', "
+                                                             f"'TooHighAverageErrorRate', 'CasavaFiltered'))",
         fasta_option_reaches_the_writer_of_standard_output=f"stdout_sink_gets_fasta_flag({S}, args.output, args.fasta)",
         length_filters_present_iff_bounds_given=f"present_filter({S}, 'TooShort') == (not is_none(args.minimum_length)) and present_filter({S}, 'TooLong') == (not is_none(args.maximum_length))",
         length_bounds_come_from_the_filters_own_option_one_sided_bound_looks_at_that_side_only=
@@ -408,6 +427,7 @@ def builder_steps(c):
     )
     c.mutant("steps.append(make_filter(predicate1, predicate2, path1, path2))", "steps.append(make_filter(predicate2, predicate1, path1, path2))")
     c.mutant("(not adapters2 or not adapters)", "(not adapters2)")
+    c.mutant("predicate, predicate, pair_filter_mode=pair_filter_mode", "predicate, None, pair_filter_mode=pair_filter_mode", occurrence=2)
     c.mutant("pair_filter_mode = 'any' if args.pair_filter is None else args.pair_filter", "pair_filter_mode = 'both' if args.pair_filter is None else args.pair_filter")
     c.mutant("pair_filter_mode='both' if override_pair_filter_mode else pair_filter_mode", "pair_filter_mode=pair_filter_mode", occurrence=1)
 
